@@ -354,10 +354,18 @@ func jsonSeeds(th bool) []jseed {
 			if o, ok := byShape[sig]; !ok || len(j) < len(o.text) {
 				byShape[sig] = cand{i, j}
 			}
+			// and the longest text of the shape (non-empty strings, lists at their maxima)
+			if o, ok := byShape[sig+"+"]; !ok || len(j) > len(o.text) {
+				byShape[sig+"+"] = cand{i, j}
+			}
 		}
 		var cs []cand
-		for _, v := range byShape {
-			cs = append(cs, v)
+		dup := map[int]bool{}
+		for _, k := range sortedKeys(byShape) {
+			if v := byShape[k]; !dup[v.idx] {
+				dup[v.idx] = true
+				cs = append(cs, v)
+			}
 		}
 		// richest shapes first (most members), then by value index
 		sort.Slice(cs, func(a, b int) bool {
@@ -546,7 +554,7 @@ func jsonMutPhase(r *vk.Run, th bool, only string) (evals, nontrivial int, info 
 		keys = nil
 	}
 	for _, k := range keys {
-		r.Violation(first[k].f.Key, first[k].f)
+		violate(r, first[k].f.Key, first[k].f)
 	}
 	info = map[string]any{"codecs": len(perCodec), "seeds": len(seeds), "seeds_per_codec": perCodec, "mutation_kinds": len(mutNames), "mutants": len(jobs), "accepted_distinct": nontrivial, "distinct_outcomes": len(outcomes)}
 	return
